@@ -1,6 +1,6 @@
 //! Further extension ops (added per property as the model grows).
 use crate::interp::Interp;
 
-pub fn exec(_it: &mut Interp, _toks: &[&str], _out: &mut Vec<String>) -> bool {
-    false
+pub fn exec(it: &mut Interp, toks: &[&str], out: &mut Vec<String>) -> bool {
+    crate::ext_stat::exec(it, toks, out)
 }
